@@ -430,10 +430,8 @@ func genCase(t *rapid.T) *Case {
 		}
 		p := Prog{Status: rapid.SampledFrom(statuses).Draw(t, "status"), StatusAfterBody: rapid.Bool().Draw(t, "statusAfterBody")}
 		p.Mode = rapid.IntRange(0, nModes-1).Draw(t, "mode")
-		if p.Mode == mChunkedWriter && wire.Bodiless(r.Method, p.Status) {
-			// documented exclusion: the hijacked chunked writer is not installed on a response that may not have a body
-			p.Mode = rapid.IntRange(0, mChunkedWriter-1).Draw(t, "modeInsteadOfChunkedWriter")
-		}
+		// (a handler that streams through the chunked writer does so for HEAD as for GET, and may answer 204/304:
+		// the statement makes no exception; an earlier version of this generator did)
 		if p.Mode == mChunkedWriter {
 			p.StatusAfterBody = false // the header goes out with the first Write
 		}
@@ -564,6 +562,10 @@ func TestC04Programs(t *testing.T) {
 				rec.Excluded("D120-limited-reader-whose-limit-exceeds-the-source", 1)
 				return
 			}
+			if inD154(c) && ev.ReportKnown(prop, "D154") {
+				rec.Excluded("D154-HEAD-handler-resets-the-response-then-streams-through-the-chunked-writer", 1)
+				return
+			}
 			if inD92(c) && ev.ReportKnown(prop, "D92") {
 				rec.Excluded("D92-response-replaced-after-the-chunked-writer-has-sent-the-header", 1)
 				return
@@ -578,6 +580,18 @@ func TestC04Programs(t *testing.T) {
 			rec.Sample(c)
 		}
 	})
+}
+
+// inD154: known finding D154. The answer to HEAD is marked bodiless on the Response before the handler runs;
+// a handler that starts with ctx.Response.Reset() wipes the mark, and the chunked writer, which sees nothing
+// but the Response, then sends its chunks behind the header block of a HEAD response.
+func inD154(c *Case) bool {
+	for i, p := range c.Progs {
+		if p.Mode == mChunkedWriter && p.ResetFirst && c.Reqs[i].Method == "HEAD" && p.Size > 0 {
+			return true
+		}
+	}
+	return false
 }
 
 // inD48: known finding D48. A handler sets a status that cannot have a body (1xx, 204, 304), then the
@@ -630,7 +644,7 @@ func TestC04Grid(t *testing.T) {
 				for _, proto := range []string{"HTTP/1.1", "HTTP/1.0"} {
 					for _, size := range sizes {
 						for _, after := range []bool{false, true} {
-							if mode == mChunkedWriter && (wire.Bodiless(method, st) || after) {
+							if mode == mChunkedWriter && after {
 								continue
 							}
 							if mode == mNone && size != 0 {
